@@ -26,7 +26,7 @@ SPEC = {
         "design_ref": "DESIGN.md section 6 C16"},
     "streams": ["paths"],
     "witnesses": ["F3"],
-    "rule": ("deterministic matrix (13 fixed schemas, one built by dotted item assignment schema['a.b.c.d.n'] = field with 2..5 segments (creating the intermediate schemas / into explicitly created ones, next to attribute construction; random sub-schemas: probability 0.25), one whose str/int/float/bool leaves are NumberField(int|float) built directly, subclasses of the built-in classes and Field() with storage_type overridden on the instance (random leaves: probability 0.3), one built bottom-up with sub-schemas populated and READ (reference paths, get_all_fields, generated parser) before being attached, attached to a throw-away parent or under an earlier sibling key first (last attachment wins; random sub-schemas: read-before-attach with probability 0.25, re-attachment 0.25), one with sub-schemas created explicitly with env=False/True/str/default and registered by attribute and by item at every depth, one whose field and sub-schema keys are public members of Schema and of Config (names taken from dir() at generation time; random schemas get them with probability 0.3 and a random env setting with probability 0.5), two of them with keys whose option string has adjacent / trailing dashes: a_, b__c, class_.enabled, dry__run, x {empty command line, two generated command lines, hand-made namespace} "
+    "rule": ("deterministic matrix (14 fixed schemas, one with StringField choices (in the transformed case and in another one) / case and strip transforms / regex / length bounds and bounded int and float fields, supplied with texts that differ from the stored normal form (other case, padded, 007, 1e3) and with texts the options reject (random str leaves get such options with probability ~0.5, float leaves bounds with 0.6), one built by dotted item assignment schema['a.b.c.d.n'] = field with 2..5 segments (creating the intermediate schemas / into explicitly created ones, next to attribute construction; random sub-schemas: probability 0.25), one whose str/int/float/bool leaves are NumberField(int|float) built directly, subclasses of the built-in classes and Field() with storage_type overridden on the instance (random leaves: probability 0.3), one built bottom-up with sub-schemas populated and READ (reference paths, get_all_fields, generated parser) before being attached, attached to a throw-away parent or under an earlier sibling key first (last attachment wins; random sub-schemas: read-before-attach with probability 0.25, re-attachment 0.25), one with sub-schemas created explicitly with env=False/True/str/default and registered by attribute and by item at every depth, one whose field and sub-schema keys are public members of Schema and of Config (names taken from dir() at generation time; random schemas get them with probability 0.3 and a random env setting with probability 0.5), two of them with keys whose option string has adjacent / trailing dashes: a_, b__c, class_.enabled, dry__run, x {empty command line, two generated command lines, hand-made namespace} "
              "+ 3 sub-schemas handed in directly) then seeded random schemas of depth <= 4 (identifier keys incl. trailing/double underscores, collision-free "
              "after the '.'/'_' -> '-' mapping; str/int/float/bool/any/list/dict/bytes/virtual/method leaves, nested "
              "schemas, config types; 10% keyed roots and 10% sub-schemas handed in directly for F40), each with missing / "
@@ -39,6 +39,10 @@ SPEC = {
                      "`--opt=value`, `--flag`, `--no-flag`, last one wins, namespace defaults in action order) as the "
                      "concrete function Paths.parse, sampled against the real parser on every case",
                      "Python float(str) as a per-case table answered by the interpreter directly",
+                     "the option table of the model has no choices / type column: a generated option accepts ANY text (the "
+                     "oracle checks choices=None, type=None on every introspected action); validation happens in the override",
+                     "StringField(regex=..) is modelled for two concrete patterns ([a-z]+\\Z and [a-z][a-z0-9_-]*\\Z) evaluated "
+                     "in Coq; str.strip()/lower()/upper() on ASCII text only",
                      "Schema.__getitem__ creating sub-schemas for missing keys is observed as an outcome only; the harness "
                      "restores the field tables after every lookup"],
     "assumptions": ["keys are ASCII identifiers that do not start with '_'; for a key that is a public attribute of the Config "
